@@ -123,8 +123,18 @@ where
     json!({"header": header, "rows": rows})
 }
 
+/// memory layout of the arrays handed to the Array3 entry points: 0 = standard (row-major), 1 = column-major,
+/// 2 = stored as [observation, chain, dim] and re-labelled with permuted_axes (same logical content in every case)
+static LAYOUT: std::sync::atomic::AtomicUsize = std::sync::atomic::AtomicUsize::new(0);
+
 fn array3<T: Cell>(shape: &[usize], bits: &[u64]) -> Array3<T> {
-    Array3::from_shape_vec((shape[0], shape[1], shape[2]), bits.iter().map(|b| T::of_bits(*b)).collect()).unwrap()
+    use ndarray::ShapeBuilder;
+    let a = Array3::from_shape_vec((shape[0], shape[1], shape[2]), bits.iter().map(|b| T::of_bits(*b)).collect::<Vec<T>>()).unwrap();
+    match LAYOUT.load(std::sync::atomic::Ordering::Relaxed) {
+        1 => Array3::from_shape_fn((shape[0], shape[1], shape[2]).f(), |(i, j, k)| a[[i, j, k]]),
+        2 => a.permuted_axes([1, 0, 2]).as_standard_layout().to_owned().permuted_axes([1, 0, 2]),
+        _ => a,
+    }
 }
 
 fn path_for(c: &Value) -> String {
@@ -157,6 +167,7 @@ pub fn run(c: &Value) -> Value {
     let path = path_for(c);
     let p = path.as_str();
     let keep = c["path"].is_string();
+    LAYOUT.store(match c["layout"].as_str() { Some("fortran") => 1, Some("permuted") => 2, _ => 0 }, std::sync::atomic::Ordering::Relaxed);
     match (strf(c, "fmt"), strf(c, "ty")) {
         ("csv", "f32") => finish(save_csv(&array3::<f32>(&shape, &bits), p), p, read_csv::<f32>, keep),
         ("csv", "f64") => finish(save_csv(&array3::<f64>(&shape, &bits), p), p, read_csv::<f64>, keep),
